@@ -104,6 +104,21 @@ def level2(quick: bool, us: List[Any]) -> List[Any]:
     return out
 
 
+def typing_named() -> List[Any]:
+    """Plain user classes called Union / List / Generator / ... (vfx.hidden), alone and below containers whose own name differs."""
+    import vfx.hidden as H
+
+    out: List[Any] = []
+    for c in H.TYPING_NAMED:
+        out += [c, Union[c, None], Union[c, int], Union[int, c], Tuple[c, int], Type[c], atd({"a": c})]
+        if c.__name__ != "List":
+            out.append(List[c])
+        if c.__name__ != "Dict":
+            out.append(Dict[str, c])
+        out.append(Union[int, str, float, bool, NoneType, c])
+    return out
+
+
 def all_types(quick: bool) -> List[Any]:
     us = unions(quick)
     return level0() + level1(quick) + us + level2(quick, us)
